@@ -207,7 +207,7 @@ func c13Main(args []string) int {
 			P int `json:"p"`
 			H int `json:"h"`
 		}
-		var cols []trackW
+		cols := []trackW{} // (never nil: TLC's Json module cannot read null)
 		for j := range table.ColumnWidths {
 			p := 0.0
 			if j < len(table.ColumnPositions) {
@@ -215,8 +215,8 @@ func c13Main(args []string) int {
 			}
 			cols = append(cols, trackW{q64(p), q64(float64(table.ColumnWidths[j]))})
 		}
-		var rows []trackH
-		var cells []gCell
+		rows := []trackH{}
+		cells := []gCell{}
 		ri := 0
 		structOK := true
 		pi := 0
